@@ -220,6 +220,7 @@ pub fn run_c01(outdir: &str, seed: u64, thorough: bool) -> serde_json::Value {
     let mut st = Stats::default();
     let n = if thorough { 3000 } else { 120 };
     let mut cases: Vec<String> = vec![]; let cap_cases = if thorough { 20000 } else { 1500 };
+    let mut unclipped: Vec<String> = vec![]; let mut problems: Vec<serde_json::Value> = vec![];
     let mut made = 0; let mut attempts = 0;
     while made < n && attempts < n * 30 {
         attempts += 1;
@@ -249,6 +250,11 @@ pub fn run_c01(outdir: &str, seed: u64, thorough: bool) -> serde_json::Value {
             let data = gen_dp_data(&mut r, &w.specs, 14, 4);
             // data may violate declared ranges and multiplicities: clipping must enforce the bound
             let mut data = if pinned { pinned_data() } else { data };
+            // one unit far above the declared multiplicity (several users rows with the same id, many orders and items)
+            if !pinned && r.chance(1, 3) { let k = r.range(2, 40) as usize;
+                if let Some(u0) = data["users"].get(0).cloned() { for _ in 0..k { data.get_mut("users").unwrap().push(u0.clone()); }
+                    let mine: Vec<Vec<SV>> = data["orders"].iter().filter(|o| o[1] == u0[0]).cloned().collect();
+                    for (j, o) in mine.iter().cycle().take(if mine.is_empty() { 0 } else { k }).enumerate() { let mut o = o.clone(); if j % 2 == 0 { o[3] = SV::Text("new".into()); } data.get_mut("orders").unwrap().push(o); } } }
             if !pinned && r.chance(1, 2) { if let Some(os) = data.get_mut("orders") { for o in os.iter_mut() { if r.chance(1, 3) { o[2] = SV::Real(*r.pick(&[5000.0, -700.0, 1e6])); } } } }
             let db = Db::new(&w.specs, &data);
             for (text, names, x, c, keys) in clipmaps.iter() {
@@ -276,26 +282,33 @@ pub fn run_c01(outdir: &str, seed: u64, thorough: bool) -> serde_json::Value {
                     let other = match dbn.query(text) { Ok((_, r2)) => r2, Err(_) => continue };
                     for s in here.iter() {
                         let Some(ci) = col_index(&names, &s.column) else { continue };
-                        let Some(c) = s.clip else { st.bump("clip_not_identified"); continue };
+                        // when no clipping of the summed column can be found in the plan, the largest constant the
+                        // sigma can stand for is sigma / multiplier(whole budget): exceeding it exceeds any admissible C
+                        let (c, identified) = match s.clip { Some(c) => (c, true), None => { st.bump("clip_not_identified");
+                            if !unclipped.contains(&s.column) { unclipped.push(s.column.clone()); }
+                            (s.sigma / ((2.0 * (1.25f64 / p.delta).ln()).sqrt() / p.epsilon), false) } };
                         let mut m: BTreeMap<String, (f64, f64)> = BTreeMap::new();
                         for row in base.iter() { m.entry(key(row)).or_insert((0.0, 0.0)).0 = row[ci].as_f64().unwrap_or(0.0); }
                         for row in other.iter() { m.entry(key(row)).or_insert((0.0, 0.0)).1 = row[ci].as_f64().unwrap_or(0.0); }
                         let norm = m.values().map(|(a, b)| (a - b) * (a - b)).sum::<f64>().sqrt();
                         st.bump("neighbour_comparisons");
                         if norm > c * (1.0 + 1e-9) + 1e-9 {
-                            st.violation(json!({"kind":"sensitivity-exceeds-clip-bound","class":shape,"query":sql,"column":s.column,"clip":c,"sigma":s.sigma,"l2_change":norm,"unit":u,"pre_noise_sql":text,"database":data.iter().map(|(k, v)| (k.clone(), v.iter().map(|row| row.iter().map(|x| x.json()).collect::<Vec<_>>()).collect::<Vec<_>>())).collect::<BTreeMap<_, _>>(),
+                            st.violation(json!({"kind": if identified { "sensitivity-exceeds-clip-bound" } else { "sensitivity-exceeds-any-bound-the-noise-was-scaled-by" },"class":shape,"query":sql,"column":s.column,"clip":c,"sigma":s.sigma,"l2_change":norm,"unit":u,"pre_noise_sql":text,"database":data.iter().map(|(k, v)| (k.clone(), v.iter().map(|row| row.iter().map(|x| x.json()).collect::<Vec<_>>()).collect::<Vec<_>>())).collect::<BTreeMap<_, _>>(),
                                 "groups": m.iter().take(5).map(|(k, v)| json!([k, v.0, v.1])).collect::<Vec<_>>()}));
                         }
                     }
                 }
             }
         }
+        if !unclipped.is_empty() && problems.len() < 5 { problems.push(json!({"what":"correspondence: a noised sum whose input is not clipped per privacy unit (no _CLIPPED_ column / scale factor found below it)","query":sql,"columns":unclipped.clone()})); }
+        unclipped.clear();
         if made <= 2 { st.sample(json!({"query":sql,"sites":sites.iter().map(|s| json!({"column":s.column,"sigma":s.sigma,"clip":s.clip})).collect::<Vec<_>>()})); }
     }
     let mut out = st.to_json("DP-compiled aggregation queries (and LIMIT-windowed sums) x DpParameters; the input of every noise-adding map is executed on SQLite on a generated database (values possibly outside the declared ranges, several rows per unit) and on each neighbour obtained by deleting one unit; L2 norm over groups of the change of every noised column against the clipping constant read off the IR; distinct by (pre-noise query, database)");
     let header = "From Coq Require Import QArith ZArith List. Import ListNotations.\nFrom QV Require Import Corr.Lib Corr.C01.\nOpen Scope Z_scope.";
     let f = write_shards(outdir, "c01_clip", header, "c01_case", "check", &cases, 250);
     out["shards"] = json!({"c01_clip": f});
+    out["problems"] = json!(problems);
     out
 }
 
@@ -434,8 +447,11 @@ pub fn run_c04(outdir: &str, seed: u64, thorough: bool) -> serde_json::Value {
     let mut rng = Rng::new(seed ^ 0xC04);
     let mut st = Stats::default();
     let n = if thorough { 2500 } else { 100 };
+    let ww = world_weighted();
     let templates: Vec<(&str, &str)> = vec![
-        // (query, the (unit, key) pairs of the rows reaching the aggregation)
+        // (query, the (unit, key) pairs of the rows reaching the aggregation); queries on visits run in the weighted world
+        ("SELECT t.place AS k, COUNT(t.user_id) AS n FROM visits AS t GROUP BY t.place", "SELECT t.user_id AS u, t.place AS k FROM visits AS t"),
+        ("SELECT t.place AS k, SUM(t.spent) AS s FROM visits AS t WHERE t.spent > 1 GROUP BY t.place", "SELECT t.user_id AS u, t.place AS k FROM visits AS t WHERE t.spent > 1"),
         ("SELECT t.order_id AS k, COUNT(t.price) AS n FROM items AS t GROUP BY t.order_id", "SELECT o.user_id AS u, i.order_id AS k FROM items AS i JOIN orders AS o ON i.order_id = o.id JOIN users AS us ON o.user_id = us.id"),
         ("SELECT t.id AS k, SUM(t.amount) AS s FROM orders AS t GROUP BY t.id", "SELECT o.user_id AS u, o.id AS k FROM orders AS o JOIN users AS us ON o.user_id = us.id"),
         ("SELECT t.amount AS k, COUNT(t.id) AS n FROM orders AS t GROUP BY t.amount", "SELECT o.user_id AS u, o.amount AS k FROM orders AS o JOIN users AS us ON o.user_id = us.id"),
@@ -447,6 +463,7 @@ pub fn run_c04(outdir: &str, seed: u64, thorough: bool) -> serde_json::Value {
     for i in 0..n {
         let mut r = rng.fork();
         let (sql, rowsq) = templates[i % templates.len()];
+        let w = if sql.contains("visits") { &ww } else { &w };
         let cu = *r.pick(&[1u64, 2, 5]);
         let p = DpParameters::new(*r.pick(&[0.5, 1.0, 5.0, 20.0]), *r.pick(&[1e-6, 1e-3, 0.3, 0.9]), *r.pick(&[0.5, 0.1, 0.9, 1.0]), 1000.0, 1.0, cu);
         let rel = match catch_unwind(AssertUnwindSafe(|| to_relation(&w, sql))) { Ok(Ok(rel)) => rel, _ => continue };
@@ -470,6 +487,10 @@ pub fn run_c04(outdir: &str, seed: u64, thorough: bool) -> serde_json::Value {
             // keys shared by several units, keys owned by one unit with many rows
             let amounts = [10.0, 20.0, 30.0];
             for o in data.get_mut("orders").unwrap().iter_mut() { if r.chance(2, 3) { o[2] = SV::Real(*r.pick(&amounts)); } }
+            // visits: few units and few places, a unit holding a place through several rows of different weights
+            if let Some(vs) = data.get_mut("visits") { let n0 = vs.len();
+                for v in vs.iter_mut() { v[0] = SV::Int(r.range(1, 6)); if r.chance(3, 4) { v[1] = SV::Real(*r.pick(&[100.0, 200.0, 300.0, 400.0])); } }
+                for j in 0..n0 { if r.chance(1, 2) { let mut v = vs[j].clone(); v[3] = SV::Real(*r.pick(&[0.5, 1.0, 2.0, 3.0])); vs.push(v); } } }
             { let mut seen = BTreeSet::new(); data.get_mut("orders").unwrap().retain(|o| seen.insert(o[0].canon())); }
             let db = Db::new(&w.specs, &data);
             let text = set_noise(&base, z);
